@@ -111,6 +111,10 @@ class BaseG2Ciphersuite(ABC):
 
     @staticmethod
     def KeyValidate(PK: BLSPubkey) -> bool:
+        # A public key is exactly 48 bytes; without this check any longer
+        # string whose low 384 bits are a valid encoding would be accepted.
+        if not (isinstance(PK, bytes) and len(PK) == 48):
+            return False
         try:
             pubkey_point = pubkey_to_G1(PK)
         except (ValidationError, ValueError, AssertionError):
